@@ -229,7 +229,7 @@ def gen_cases(rec, rng, tier):
         R = fa.make(Q, B[1], T, B[3] + '_0', ['%s_%d' % (q, i) for q in B[4] for i in range(m)])
         yield {'cls': 'large_blown_up', 'ref': R, 'iso': h64(R)}
     # layered 'pairs of pairs' DFAs: a block that splits into k*k pieces in one round, block numbers with two digits (k >= 11)
-    for k in ((10, 11, 12, 13, 16) if thorough else (12,)):
+    for k in ((10, 11, 12, 13) if thorough else (12,)):
         if rec.shard % 8 == k % 8:
             R = fag.layered_pairs_dfa(k)
             yield {'cls': 'layered_pairs_%d' % k, 'ref': R, 'iso': h64(R)}
